@@ -162,3 +162,34 @@ where
     }
     Verdict::Hold
 }
+
+/// the relative distance reported by the parameter objects is the code's distance:
+/// (rho_inv - 1)/rho_inv for Reed-Solomon, beta/rho_inv for Brakedown (as exact fractions), for
+/// default and for custom parameter sets (input-free: concrete)
+pub fn distances(seed: u64) -> Verdict {
+    use crate::engine::ro::{RoColHash, RoMT};
+    use ark_poly_commit::linear_codes::{BrakedownPCParams, LigeroPCParams, LinCodeParametersInfo};
+    use ark_std::rand::{rngs::StdRng, SeedableRng};
+    let same = |a: (usize, usize), b: (usize, usize)| (a.0 as u128) * (b.1 as u128) == (b.0 as u128) * (a.1 as u128) && a.1 != 0;
+    for rho in [2usize, 3, 4, 8, 16] {
+        let pp: LigeroPCParams<SF, RoMT, RoColHash> = LigeroPCParams::new(128, rho, true, (), (), ());
+        if !same(pp.distance(), (rho - 1, rho)) {
+            return Verdict::viol("distance-wrong", format!("Ligero rho_inv = {}: distance() = {:?}, expected {}/{}", rho, pp.distance(), rho - 1, rho));
+        }
+        if pp.sec_param() != 128 || !pp.check_well_formedness() {
+            return Verdict::viol("params-report", "Ligero parameter accessors misreport");
+        }
+    }
+    let dflt: BrakedownPCParams<SF, RoMT, RoColHash> = BrakedownPCParams::default(&mut StdRng::seed_from_u64(seed), 16, true, (), (), ());
+    if !same(dflt.distance(), (61 * 1000, 1000 * 1521)) {
+        return Verdict::viol("distance-wrong", format!("Brakedown defaults: distance() = {:?}, expected beta/rho_inv = 61/1521", dflt.distance()));
+    }
+    for (b, r) in [((1usize, 10usize), (3usize, 2usize)), ((61, 1000), (1521, 1000)), ((2, 7), (5, 3)), ((1, 20), (2, 1))] {
+        let pp: BrakedownPCParams<SF, RoMT, RoColHash> = BrakedownPCParams::new(8, (1, 5), b, r, 30, 4, 4, vec![], vec![], vec![], vec![], true, (), (), ());
+        // beta / rho_inv = (b0/b1) / (r0/r1) = b0*r1 / (b1*r0)
+        if !same(pp.distance(), (b.0 * r.1, b.1 * r.0)) {
+            return Verdict::viol("distance-wrong", format!("Brakedown beta = {}/{}, rho_inv = {}/{}: distance() = {:?}, expected {}/{}", b.0, b.1, r.0, r.1, pp.distance(), b.0 * r.1, b.1 * r.0));
+        }
+    }
+    Verdict::Hold
+}
